@@ -3,6 +3,10 @@ EXTENDS EventStream
 S2 == {"s1", "s2"}
 S1 == {"s1"}
 SM == {"m", "s1"}
+\* r1: a subscriber on another node whose PID differs from s1's only in where the address ends and the id begins
+SR == {"s1", "r1"}
+NoRemote == {}
+R1 == {"r1"}
 O2 == {1, 2}
 O1 == {1}
 B2 == {"b1", "b2"}
